@@ -82,9 +82,9 @@ StaticDeps(p, n) ==
 (* Cyclic programs (C06).                                                  *)
 (*                                                                         *)
 (* Family restriction (checked by CycWellFormed): in every executable node *)
-(* all items but the last read source nodes only, so whether the last item *)
-(* (the only one that may read other executable nodes) is executed is      *)
-(* decided by input values alone.  The active dependency graph is then     *)
+(* all items but the last read source nodes or gates only, so whether the  *)
+(* last item (the only one that may read other executable nodes) is        *)
+(* executed is decided by input values alone.  The active dependency graph is then     *)
 (* well defined; a node lies on a cycle iff it reaches itself.  Nodes on a *)
 (* cycle evaluate to their executor's cycle default, all others normally.  *)
 (* CycSimple additionally requires every node on a cycle to have exactly   *)
@@ -94,55 +94,79 @@ StaticDeps(p, n) ==
 
 IsSrc(p, d) == IsSource(p.nodes[d])
 
+(* A gate is an executable node (typically a firewall) all of whose reads   *)
+(* are sources: its value is a function of the inputs alone, it can lie on  *)
+(* no cycle, and it may therefore guard cycle edges just like an input      *)
+(* ("a cycle switched on and off by a firewall next to it").                *)
+IsGate(p, d) ==
+    /\ ~IsSrc(p, d)
+    /\ \A k \in 1..Len(p.nodes[d].code) : \A i \in 1..Len(p.nodes[d].code[k].deps) :
+          IsSrc(p, p.nodes[d].code[k].deps[i])
+(* env extended by the values of the gates *)
+GateEnv(p, env) ==
+    [d \in NodeIds(p) |-> IF IsSrc(p, d) THEN env[d]
+                          ELSE IF IsGate(p, d) THEN Eval(p, d, env).out ELSE None]
+
 CycWellFormed(p) ==
     \A n \in NodeIds(p) : \A k \in 1..Len(p.nodes[n].code) :
         k < Len(p.nodes[n].code) =>
-            \A i \in 1..Len(p.nodes[n].code[k].deps) : IsSrc(p, p.nodes[n].code[k].deps[i])
+            \A i \in 1..Len(p.nodes[n].code[k].deps) :
+                IsSrc(p, p.nodes[n].code[k].deps[i]) \/ IsGate(p, p.nodes[n].code[k].deps[i])
 
-(* accumulator of node n after its source-only prefix *)
-RECURSIVE PrefixAcc(_, _, _, _, _)
-PrefixAcc(p, env, nd, k, acc) ==
+(* accumulator of node n after its source/gate-only prefix; ge = GateEnv *)
+RECURSIVE PrefixAccG(_, _, _, _, _)
+PrefixAccG(p, ge, nd, k, acc) ==
     IF k >= Len(nd.code) THEN acc
     ELSE LET it == nd.code[k] IN
          IF Guard(it, acc)
-         THEN PrefixAcc(p, env, nd, k + 1, RunDeps(p, it, 1, acc, <<>>, env).acc)
-         ELSE PrefixAcc(p, env, nd, k + 1, acc)
+         THEN PrefixAccG(p, ge, nd, k + 1, RunDeps(p, it, 1, acc, <<>>, ge).acc)
+         ELSE PrefixAccG(p, ge, nd, k + 1, acc)
 
-(* executable nodes that n actively reads under env *)
-ActiveExecDeps(p, env, n) ==
+(* executable nodes that n actively reads in its last item, given the gate environment *)
+ActiveExecDepsG(p, ge, n) ==
     LET nd == p.nodes[n] IN
     IF IsSource(nd) \/ Len(nd.code) = 0 THEN {}
     ELSE LET last == nd.code[Len(nd.code)]
-             acc  == PrefixAcc(p, env, nd, 1, nd.init)
+             acc  == PrefixAccG(p, ge, nd, 1, nd.init)
          IN  IF Guard(last, acc)
              THEN {last.deps[i] : i \in 1..Len(last.deps)} \ {d \in NodeIds(p) : IsSrc(p, d)}
              ELSE {}
+ActiveExecDeps(p, env, n) == ActiveExecDepsG(p, GateEnv(p, env), n)
 
-RECURSIVE ReachFrom(_, _, _, _)
-ReachFrom(p, env, frontier, seen) ==
-    LET nxt == (UNION {ActiveExecDeps(p, env, x) : x \in frontier}) \ seen
-    IN  IF nxt = {} THEN seen ELSE ReachFrom(p, env, nxt, seen \cup nxt)
+(* the active dependency graph under env as a function, computed once per valuation *)
+ActiveFn(p, env) ==
+    LET ge == GateEnv(p, env) IN [n \in NodeIds(p) |-> ActiveExecDepsG(p, ge, n)]
 
-OnCycle(p, env, n) == n \in ReachFrom(p, env, ActiveExecDeps(p, env, n), ActiveExecDeps(p, env, n))
-CycleNodes(p, env) == {n \in NodeIds(p) : ~IsSrc(p, n) /\ OnCycle(p, env, n)}
+RECURSIVE ReachFn(_, _, _)
+ReachFn(ad, frontier, seen) ==
+    LET nxt == (UNION {ad[x] : x \in frontier}) \ seen
+    IN  IF nxt = {} THEN seen ELSE ReachFn(ad, nxt, seen \cup nxt)
+
+CycleNodesF(p, ad) == {n \in NodeIds(p) : ~IsSrc(p, n) /\ n \in ReachFn(ad, ad[n], ad[n])}
+CycleNodes(p, env) == CycleNodesF(p, ActiveFn(p, env))
+OnCycle(p, env, n) == n \in CycleNodes(p, env)
 
 CycSimple(p, env) ==
-    LET C == CycleNodes(p, env) IN
-    \A n \in C : Cardinality(ActiveExecDeps(p, env, n) \cap C) = 1
+    LET ad == ActiveFn(p, env)
+        C == CycleNodesF(p, ad)
+    IN  \A n \in C : Cardinality(ad[n] \cap C) = 1
 
-(* valuation by rounds: sources and cycle members first, then every node   *)
-(* all of whose active dependencies are known                              *)
-RECURSIVE CycRounds(_, _, _, _)
-CycRounds(p, env, val, k) ==
+(* valuation by rounds: sources, gates and cycle members first, then every  *)
+(* node all of whose active dependencies are known                          *)
+RECURSIVE CycRounds(_, _, _, _, _)
+CycRounds(p, env, ad, val, k) ==
     IF k = 0 THEN val
-    ELSE LET ready(n) == val[n] = None /\ \A d \in ActiveExecDeps(p, env, n) : val[d] # None
-             full(n) == [d \in NodeIds(p) |-> IF IsSrc(p, d) THEN env[d] ELSE val[d]]
-             nv == [n \in NodeIds(p) |-> IF ready(n) THEN Eval(p, n, full(n)).out ELSE val[n]]
-         IN  CycRounds(p, env, nv, k - 1)
+    ELSE LET ready(n) == val[n] = None /\ \A d \in ad[n] : val[d] # None
+             full == [d \in NodeIds(p) |-> IF IsSrc(p, d) THEN env[d] ELSE val[d]]
+             nv == [n \in NodeIds(p) |-> IF ready(n) THEN Eval(p, n, full).out ELSE val[n]]
+         IN  IF nv = val THEN val ELSE CycRounds(p, env, ad, nv, k - 1)
 
 CycValuation(p, env) ==
-    LET C == CycleNodes(p, env)
+    LET ge == GateEnv(p, env)
+        ad == [n \in NodeIds(p) |-> ActiveExecDepsG(p, ge, n)]
+        C == CycleNodesF(p, ad)
         v0 == [n \in NodeIds(p) |-> IF IsSrc(p, n) THEN env[n]
-                                    ELSE IF n \in C THEN SccDefault(p.nodes[n]) ELSE None]
-    IN  CycRounds(p, env, v0, Len(p.nodes))
+                                    ELSE IF n \in C THEN SccDefault(p.nodes[n])
+                                    ELSE IF IsGate(p, n) THEN ge[n] ELSE None]
+    IN  CycRounds(p, env, ad, v0, Len(p.nodes))
 =============================================================================
